@@ -98,12 +98,13 @@ def valid(hyps, goal, timeout_ms, fast_reject=False):
         if r0 == z3.unsat:
             return True
         if r0 == z3.sat and fast_reject:
-            return False  # candidate pruning only: "not shown equal"
+            # candidate pruning: one short attempt with the quantified hypotheses (shape facts such as
+            # "len(cfg.cn) == len(gene.regions)" are quantified preconditions), then "not shown equal"
+            timeout_ms = min(timeout_ms, 1500)
     except z3.Z3Exception:
         pass
     s = z3.Solver()
     s.set("timeout", timeout_ms)
-    s.set("smt.mbqi", False)
     for h in hyps:
         s.add(h)
     s.add(z3.Not(goal))
@@ -204,5 +205,5 @@ def prove_with_congruence(hyps, goal, timeout_ms=5000):
     h2 = list(hyps) + extra
     if z3.is_and(g):
         return all(prove_with_congruence(h2, c, timeout_ms) for c in g.children())
-    g2, h3 = abstract(g, h2, min(timeout_ms, 1500))
+    g2, h3 = abstract(g, h2, min(timeout_ms, 8000))
     return valid(h3, g2, timeout_ms)
